@@ -23,7 +23,7 @@ SUFFIXES = ["", "", "", "", " end", "!", ")", "*"]
 TAGS = ["final", "alpha", "beta", "rc", "dev", "post", "preview"]
 PYTAG = {"final": "", "alpha": "a", "beta": "b", "rc": "rc", "dev": "dev", "post": "post", "preview": "rc"}
 NUMS = [0, 0, 1, 2, 9, 10, 11, 99, 100, 101, 999, 1000, 12345]
-BIDS = ["1000", "1001", "0001", "0999", "1999", "22000", "0033", "9998", "1", "123", "10000", "8999", "0100"]
+BIDS = ["1000", "1001", "0001", "0999", "1999", "22000", "0033", "9998", "1", "123", "10000", "8999", "0100", "9", "99", "999"]
 
 
 # optional groups that start with another optional group ("[[") and sibling groups
